@@ -179,6 +179,11 @@ func runC06(c *Ctx, r *Report, tier string) {
 		_, okOpt := c.Requires(cr, isInstr(optStore), litHas(true, "nonempty(cell:[]*Option)"), nil)
 		r.Check(okOpt, "POSITIONAL", fname, "option failure REQ(len(missing options) != 0)", c.ipos(optStore), "unreachable once the `missing list non-empty` edge is deleted", "option failure reachable with an empty missing list")
 	}
+	// the values counted are all the positional tokens: none reaches the rest without passing the fill (addArgs)
+	c.whoStores(r, "POSITIONAL", "parseState", "retargs", map[string]string{
+		"(*Parser).ParseArgs":   "makeslice[[]string](0)",
+		"(*parseState).addArgs": "append(parseState.retargs(P0), ",
+	})
 	// compared quantities
 	want := map[string]string{
 		"Command.ArgsRequired(": "Command.ArgsRequired(parseState.command(P0))",
